@@ -6,6 +6,7 @@
 package main
 
 import (
+	"bytes"
 	"context"
 	"encoding/binary"
 	"fmt"
@@ -755,6 +756,23 @@ func main() {
 					}
 				case <-time.After(3 * time.Second):
 					rep.Fail("deployed-eof-code-not-eof", "tunnel.Read did not return on a reply carrying the end-of-stream code", []string{op})
+				}
+			}
+			// a peer that answers a read with more bytes than were asked for
+			done2 := make(chan rr, 1)
+			go func() {
+				n, err := p.Client.Tunnel(8).Read(make([]byte, 8))
+				done2 <- rr{n, err}
+			}()
+			if r, ok := p.NextReq(3 * time.Second); ok {
+				body, _ := sniproxy.VerifEncode("readResponse", []sniproxy.VerifVal{{K: 'b', B: bytes.Repeat([]byte("x"), 20)}, {K: 'e'}})
+				p.Send(snix.ReplyFrame(r.ID, 4, 0, body))
+				select {
+				case x := <-done2:
+					if x.n > 8 || (x.err == nil && x.n != 8 && x.n != 0) {
+						rep.Fail("read-reports-more-than-its-buffer", fmt.Sprintf("tunnel.Read into an 8-byte buffer returned (%d, %v) for a 20-byte reply", x.n, x.err), []string{op})
+					}
+				case <-time.After(3 * time.Second):
 				}
 			}
 			p.Close(2 * time.Second)
